@@ -191,6 +191,25 @@ def run(ctx: Context) -> None:
                       construct=f"selector = {detail[:130]}")
             ctx.check('R05.1', ok_dims, "the enumerated sequence is self.grid_dimensions[kind]", fi, dsets[0], construct='enumerate(self.grid_dimensions[kind])')
             ctx.check('R05.1', ok_arr, "the index array holds the unpacked index tuples", fi, dsets[0], construct='index_array = numpy.array(index tuples)')
+            # isel counts negative positions from the end: a negative native index must be refused before it gets there
+            ok_negative, neg_text = False, 'none'
+            if ok_col:
+                arr_key = flow.canon(col.value)
+                for rs in raises:
+                    for st, inb in enclosing_ifs(fi, rs):
+                        if not inb:
+                            continue
+                        for cmp_ in ast.walk(st.test):
+                            if isinstance(cmp_, ast.Compare) and len(cmp_.ops) == 1 and isinstance(cmp_.ops[0], ast.Lt) and const_value(cmp_.comparators[0], None) == 0:
+                                subj = cmp_.left
+                                if isinstance(subj, ast.Call) and isinstance(subj.func, ast.Attribute) and subj.func.attr == 'min' and not subj.args:
+                                    subj = subj.func.value
+                                elif isinstance(subj, ast.Call) and callee(ctx, fi, subj) in ('numpy.min', 'numpy.amin') and subj.args:
+                                    subj = subj.args[0]
+                                if flow.canon(subj) == arr_key:
+                                    ok_negative, neg_text = True, norm_text(st.test)
+            ctx.check('R05.1', ok_negative, "a negative native index is refused before the selector is built (Dataset.isel would wrap it onto another cell)", fi, dsets[0],
+                      construct=f"raise when {neg_text}")
             # request order: the unpack comprehension iterates `indexes` in order
             unpack_comp = [n for n in ast.walk(fi.node) if isinstance(n, (ast.ListComp, ast.GeneratorExp))
                            and isinstance(n.elt, ast.Call) and isinstance(n.elt.func, ast.Attribute) and n.elt.func.attr == 'unpack_index']
@@ -517,6 +536,9 @@ VARIANTS = [
     V('C05', 'sel-for-isel', _B, "        return dataset.isel(selector)", "        return dataset.sel(selector)", 'R05.1'),
     V('C05', 'column-reversed', _B, "            dimension: (index_dimension, index_array[:, i])", "            dimension: (index_dimension, index_array[:, -1 - i])", 'R05.1'),
     V('C05', 'dims-reversed', _B, "            for i, dimension in enumerate(dimensions)\n        })", "            for i, dimension in enumerate(reversed(dimensions))\n        })", 'R05.1'),
+    V('C05', 'negative-index-wraps', _B, "        if (index_array < 0).any():\n            raise ValueError(\"Indexes must not be negative\")\n", "", ('R05.1',)),
+    V('C05', 'negative-check-on-other-array', _B, "        if (index_array < 0).any():", "        if (numpy.array(grid_kinds == 0) < 0).any():", ('R05.1',)),
+    V('C05', 'benign-negative-check-min-form', _B, "        if (index_array < 0).any():", "        if index_array.min() < 0:", None),
     V('C05', 'dedupe-requests', _B, "        selector = self.selector_for_indexes(indexes, index_dimension=index_dimension)", "        selector = self.selector_for_indexes(sorted(set(indexes)), index_dimension=index_dimension)", 'R05.1'),
     V('C05', 'keep-geometry-always', _B, "        if drop_geometry:\n            dataset = self.drop_geometry()\n        else:\n            dataset = self.dataset\n", "        dataset = self.dataset\n", 'R05.1'),
     V('C05', 'labels-renumbered', _P, "    point_indexes = [i for i, index in enumerate(indexes) if index is not None]", "    point_indexes = list(range(sum(1 for index in indexes if index is not None)))", 'R05.2'),
